@@ -65,5 +65,31 @@ def run(out, tier, seed):
             ev = {"op": "roundtrip", "fmt": fmt, "shape": name, "before": triples, "expressible": bool(xmlok or fmt not in ("xml", "pretty-xml"))}
             ev.update(opts)
             jobs.append({"cfg": {}, "events": [ev]})
+    # serializer options that change the spelling, not the meaning
+    RDFS, OWL, LOG = "http://www.w3.org/2000/01/rdf-schema#", "http://www.w3.org/2002/07/owl#", "http://www.w3.org/2000/10/swap/log#"
+    S1_, P1_, P2_, L_, I_ = shapes.S1, shapes.P1, shapes.P2, shapes.L, shapes.I
+    TYPE_ = I_(shapes.RDF + "type")
+    opt_cases = [
+        ("opt:plain+lang", [[S1_, P1_, L_("plain")], [S1_, P2_, L_("english", lang="en")], [S1_, P2_, L_("deutsch", lang="de")], [S1_, P1_, L_("typed", dt=shapes.XSD + "string")], [S1_, P1_, L_("7", dt=shapes.XSD + "integer")]]),
+        ("opt:keyword-iris", [[S1_, TYPE_, I_(shapes.EX + "C")], [I_(shapes.EX + "kind"), I_(RDFS + "subPropertyOf"), TYPE_], [TYPE_, I_(RDFS + "label"), L_("type")],
+                              [S1_, I_(OWL + "sameAs"), shapes.S2], [I_(shapes.EX + "same"), I_(RDFS + "subPropertyOf"), I_(OWL + "sameAs")], [I_(OWL + "sameAs"), I_(RDFS + "label"), L_("=")],
+                              [S1_, I_(LOG + "implies"), shapes.S2], [I_(shapes.EX + "imp"), I_(RDFS + "seeAlso"), I_(LOG + "implies")]]),
+        ("opt:line-boundaries", [[S1_, P1_, L_("a\u2028b")], [S1_, P1_, L_("a\u2029b")], [S1_, P2_, L_("a\u0085b")], [S1_, P2_, L_("a\u000bb\u000cc")], [shapes.S2, P1_, L_("a\u001cb\u001dc\u001ed")], [shapes.S2, P2_, L_("a\nb")]]),
+    ]
+    opt_cases += [
+        ("opt:amp-iris", [[S1_, I_("http://ex.example/q?a=1&b=2#p"), L_("v", dt="http://ex.example/dt?x=1&y=2")], [I_("http://ex.example/s?a=1&b=2"), P1_, I_("http://ex.example/o?a=1&b=2")],
+                          [S1_, I_("http://ex.example/ns&more#p"), L_("w")]]),
+        ("opt:markup+cr", [[S1_, P1_, L_("<a>x</a>\r")], [S1_, P2_, L_("<b>\r\n</b>")], [shapes.S2, P1_, L_("a\rb")], [shapes.S2, P2_, L_("1", dt=shapes.XSD + "decimal")], [shapes.S2, P2_, L_("1.50", dt=shapes.XSD + "decimal")]]),
+        ("opt:shared-bnode", [[S1_, P1_, shapes.Bn("x")], [shapes.S2, P1_, shapes.Bn("x")], [shapes.Bn("x"), P2_, L_("shared")], [shapes.Bn("x"), P1_, shapes.Bn("y")], [shapes.S2, P2_, shapes.Bn("y")], [shapes.Bn("y"), P2_, L_("leaf")]]),
+    ]
+    kw_sets = {"json-ld": [{"context": {"@language": "en"}}, {"context": {"@vocab": shapes.EX}}, {"context": {"ex": shapes.EX, "@language": "de"}}, {"auto_compact": True}, {"use_native_types": True}],
+               "longturtle": [{"canon": True}], "turtle": [{"spacious": True}], "xml": [{"max_depth": 1}], "pretty-xml": [{"max_depth": 1}, {"max_depth": 2}]}
+    for name, triples in opt_cases:
+        for fmt in FORMATS:
+            for kw in [{}] + kw_sets.get(fmt, []):
+                # U+000B, U+000C, U+001C-U+001E cannot be carried by XML 1.0
+                ok = not (name == "opt:line-boundaries" and fmt in ("xml", "pretty-xml"))
+                ev = {"op": "roundtrip", "fmt": fmt, "shape": name + ":" + ",".join(sorted(kw)), "before": triples, "expressible": ok, "ser_kw": kw, "prefixes": [["ex", shapes.EX]]}
+                jobs.append({"cfg": {}, "events": [ev]})
     out.exhaustive = not quick
     out.conform(__name__, TRACE, jobs, nontrivial=nontrivial, chunk=400, par=16, heap="2g")
